@@ -28,7 +28,7 @@ impl Prop for C06Prop {
             large_pct: 20,
             n_small: (0, 10),
             n_large: (21, 50),
-            regimes: vec![WeightRegime::AllNan, WeightRegime::Dyadic, WeightRegime::SmallInt, WeightRegime::Nasty, WeightRegime::Tiny, WeightRegime::NearEqual, WeightRegime::MixedScale],
+            regimes: vec![WeightRegime::AllNan, WeightRegime::Dyadic, WeightRegime::SmallInt, WeightRegime::Nasty, WeightRegime::Tiny, WeightRegime::NearEqual, WeightRegime::MixedScale, WeightRegime::Subnormal],
             kinds: AlgoGen::all_kinds(),
             shapes: None,
             lifecycle_pct: 30,
@@ -92,12 +92,37 @@ impl Prop for C06Prop {
         if asym {
             cx.count("probe.direction_asymmetric_distances");
         }
+        if cx.viol.is_empty() && n >= 2 && n <= 60 && crate::core::rng::Rng::new(case.seed, "config.wrap").chance(1, 1500) {
+            // counters that wrap: the same call again after exactly 2^8, 2^15, 2^16 (+-1) calls / searches on this thread
+            let tiny = match crate::core::real::build(Specs::kind(snap.directed, false, false), &[Op::AddNodes(vec![("w".to_string(), None)])]) {
+                Ok(t) => t,
+                Err(_) => return,
+            };
+            let weighted = case.seed % 2 == 0 && !snap.edges.is_empty() && snap.weighted() && algo::all_positive(snap) && algo::comparable_scale(snap);
+            algo::wrap_probe(
+                cx,
+                "C06",
+                "closeness_centrality",
+                n,
+                |k| match rt::call("closeness_centrality", budget, || closeness_centrality(g, weighted, k % 2 == 0)) {
+                    Ok(Ok(m)) => {
+                        let mut v: Vec<(String, u64)> = m.into_iter().map(|(a, b)| (a, b.to_bits())).collect();
+                        v.sort();
+                        Some(format!("{:?}", v))
+                    }
+                    _ => None,
+                },
+                || {
+                    let _ = rt::call("closeness_centrality(filler)", 1_000_000, || closeness_centrality(&tiny, false, false).is_ok());
+                },
+            );
+        }
         if snap.edges.len() >= 2 {
             cx.nt.push(super::lifecycle::ops_hash(&case.ops));
         }
         cx.states.push(super::lifecycle::ops_hash(&case.ops));
     }
     fn rule(&self) -> String {
-        "graphs of all 8 kinds (shapes incl. in/out stars, and lifecycle-built; n <= 10 or 21-50), hop counts or positive weights (dyadic, integer, decimal); closeness_centrality(weighted x wf_improved) under a simulated pool of 1-16 workers vs the definition from the incoming Floyd-Warshall distance columns at 1e-9, exactly one entry per node. distinct_nontrivial = distinct graphs with >= 2 edges; one case in 2000 is a dense graph (1-3 blocks, 60-300 nodes) with 2 100 - 12 500 stored edges under a pool of 2-16 workers (strategy thresholds)".into()
+        "graphs of all 8 kinds (shapes incl. in/out stars, and lifecycle-built; n <= 10 or 21-50), hop counts or positive weights (dyadic, integer, decimal); closeness_centrality(weighted x wf_improved) under a simulated pool of 1-16 workers vs the definition from the incoming Floyd-Warshall distance columns at 1e-9, exactly one entry per node. distinct_nontrivial = distinct graphs with >= 2 edges; one case in 2000 is a dense graph (1-3 blocks, 60-300 nodes) with 2 100 - 12 500 stored edges under a pool of 2-16 workers (strategy thresholds); in a third of the cases a battery of valid unjudged calls runs first on a sibling graph (same names and edges, other node order), in a fifth the graph is queried on the same object before its last one to three operations are applied (DESIGN.md 0.2); subnormal weights (totals below f64::MIN_POSITIVE); one case in 1 500 repeats the call after exactly 2^8, 2^15, 2^16 (+-1) further calls / inner searches on the thread (counter wrap-around)".into()
     }
 }
